@@ -86,15 +86,25 @@ class TQ(TP):
     pass
 
 
+@dataclass(frozen=True)
+class TW(ASTNode):  # two tuple child fields
+    first: tuple[ASTNode, ...] = ()
+    second: tuple[ASTNode, ...] = ()
+    tag: int = 0
+
+
 U = Universe("c09", [
     C("TL", TL, [F("v", PROP, alphabet=(0,))]),
     C("TS", TS, [F("v", PROP, alphabet=(0,))], bases=("TL",)),
     C("TP", TP, [F("one", OPT), F("items", VAR, maxlen=3), F("tag", PROP, alphabet=(0,))]),
     C("TQ", TQ, [F("one", OPT), F("items", VAR, maxlen=3), F("tag", PROP, alphabet=(0,))], bases=("TP",)),
 ])
+# the shaped family: a class with two tuple fields (exhaustive enumeration above keeps to the 4 classes)
+U2 = Universe("c09-shaped", U.classes and [U.classes[c] for c in ("TL", "TS", "TP", "TQ")] + [
+    C("TW", TW, [F("first", VAR, maxlen=3), F("second", VAR, maxlen=3), F("tag", PROP, alphabet=(0,))])])
 TCLS = ["TL", "TS", "TP", "TQ"]
 RULES = ["none", "keep", "rewrite", "replace", "remove", "raise"]
-MRO = {"TL": ["TL"], "TS": ["TS", "TL"], "TP": ["TP"], "TQ": ["TQ", "TP"]}
+MRO = {"TL": ["TL"], "TS": ["TS", "TL"], "TP": ["TP"], "TQ": ["TQ", "TP"], "TW": ["TW"]}
 
 
 class Boom(Exception):
@@ -132,15 +142,16 @@ def make_visitor(rules: dict, strict: bool):
 
 def effective_rule(cname, rules, strict):
     if strict:
-        return rules[cname] if rules[cname] != "none" else "keep"
+        return rules.get(cname, "none") if rules.get(cname, "none") != "none" else "keep"
     for k in MRO[cname]:
-        if rules[k] != "none":
+        if rules.get(k, "none") != "none":
             return rules[k]
     return "keep"  # generic_visit
 
 
 # reference results: ("same", path) | ("new", cls, {prop: value}, {field: result | tuple(results)}) | None ; raises Boom
 def ref_transform(d, path, rules, strict):
+    U = U2  # a superset of the exhaustive universe
     cname = d[0]
     rule = effective_rule(cname, rules, strict)
     if rule == "raise":
@@ -220,7 +231,7 @@ def snapshot(index):
     snap = {}
     for p, n in index.items():
         snap[p] = (id(n), n.id, n.content_id, tuple((f.name, id(getattr(n, f.name))) for f in dataclasses.fields(n)),
-                   tuple(id(x) for x in n.items) if isinstance(n, TP) else None)
+                   tuple(tuple(id(x) for x in getattr(n, f.name)) for f in dataclasses.fields(n) if isinstance(getattr(n, f.name), tuple)))
     return snap
 
 
@@ -248,7 +259,7 @@ def has_same_and_new(exp):
 def check_transform(rec, d, rules, strict):
     NODE_REGISTRY.clear()
     index = {}
-    root = U.build(d, index=index)
+    root = U2.build(d, index=index)
     orig_ids = {id(n) for n in index.values()}
     snap = snapshot(index)
     case = {"tree": d, "rules": rules, "strict": strict}
@@ -358,6 +369,20 @@ def _make_validated(ns):
     return VV
 
 
+def shaped_trees():
+    L, S = ("TL", (("v", 0),)), ("TS", (("v", 0),))
+
+    def W(first, second):
+        return ("TW", (("first", tuple(first)), ("second", tuple(second)), ("tag", 0)))
+
+    def P(one, items):
+        return ("TP", (("one", one), ("items", tuple(items)), ("tag", 0)))
+
+    w1 = W([L, S], [L, S, L])
+    return [W([L], [S, L]), w1, W([S, L, S], [L]), W([S, S], [L, L]), W([W([L], [S, L])], [L, S]), P(w1, [L, W([S], [L, S, S])]),
+            W([], [S, L, S]), W([L, S, L], [])]
+
+
 def plan(tier, seed):
     return [{"n": N[tier], "k": i, "of": NSHARDS} for i in range(NSHARDS)]
 
@@ -378,7 +403,18 @@ def run_shard(cfg):
                 rec.rank = idx
                 for strict in (False, True):
                     check_transform(rec, d, rules, strict)
-    rec.bound = {"max_nodes": cfg["n"], "rule_sets": len(rulesets)}
+    # shaped trees with two tuple fields per node: rule sets over {TL, TS, TW} x {TP}
+    for d in shaped_trees():
+        for combo in itertools.product(RULES, repeat=4):
+            mine = idx % cfg["of"] == cfg["k"]
+            idx += 1
+            if not mine:
+                continue
+            rec.rank = 10**8 + idx
+            rules = dict(zip(["TL", "TS", "TW", "TP"], combo))
+            for strict in (False, True):
+                check_transform(rec, d, rules, strict)
+    rec.bound = {"max_nodes": cfg["n"], "rule_sets": len(rulesets), "shaped_trees": len(shaped_trees())}
     return rec.result()
 
 
